@@ -252,7 +252,7 @@ func sortInt32(a []int32) {
 func TestC16(t *testing.T) {
 	runProp(t, "C16", checkC16, func(t *rapid.T) *Case {
 		c := &Case{}
-		kinds := []string{"U16", "U32", "U64", "I16", "I32", "I64", "Struct"}
+		kinds := append([]string{"U16", "U32", "U64", "I16", "I32", "I64", "Struct"}, genKindNames...)
 		c.Kind = kinds[pickU(t, "kind", len(kinds))]
 		c.Gen = c.Kind
 		c.Idx = genIndexSet(t)
